@@ -190,10 +190,11 @@ def check_views(ctx, F):
         ctx.bad('R4', 'floor: model views', 'stream::model', 'only %d views/projections found (9 on the reference tree)' % n, key='R4/floor/views')
 
 
-def check_forwarding(ctx, F):
+def check_forwarding(ctx, F, traits=None, floor=5, what='stream::model'):
+    traits = MODEL_TRAITS if traits is None else traits
     n = 0
     for b in F.bodies:
-        if b.promoted is not None or b.dk != 'AssocFn' or b.impl_trait not in MODEL_TRAITS:
+        if b.promoted is not None or b.dk != 'AssocFn' or b.impl_trait not in traits:
             continue
         st = F.ty(b.impl_self) if b.impl_self is not None else {}
         if st.get('k') != 'ref':
@@ -214,8 +215,8 @@ def check_forwarding(ctx, F):
                 ok = got == want and recv[0] == 'in' and recv[1][0] == 1
         (ctx.ok if ok else ctx.bad)('R4', role, b.defpath, '(*self).%s(args unchanged)' % b.name if ok else 'body is not a pure delegation of %s' % b.name, key=key, loc=rules.loc(b))
     ctx.extra['ref_forwardings'] = n
-    if n < 5:
-        ctx.bad('R4', 'floor: &M forwardings', 'stream::model', 'only %d forwarding methods found' % n, key='R4/floor/ref-forwardings')
+    if n < floor:
+        ctx.bad('R4', 'floor: &M forwardings', what, 'only %d forwarding methods found' % n, key='R4/floor/ref-forwardings')
 
 
 def check_pass_through(ctx, F):
